@@ -51,6 +51,12 @@ def mapLen {ν : Type} (m : List (Str × ν)) : Int := m.length
 function when the iteration for `x` is entered, `next` the value when the iteration falls through / continues. -/
 def forRange {α β : Type} (l : List α) (body : α → β → β) (done : β) : β := l.foldr body done
 
+/-- a range loop with loop-carried state `σ` (the variables the loop body assigns): `body x s next` continues with
+`next s'`, `done s` is the code after the loop -/
+def forRangeS {α σ β : Type} : List α → (α → σ → (σ → β) → β) → σ → (σ → β) → β
+  | [], _, s, done => done s
+  | x :: r, body, s, done => body x s (fun s' => forRangeS r body s' done)
+
 /-! ### routersImpl tables (pkg/router/routers_impl.go) -/
 
 /-- `WildcardVirtualHostWithPort` -/
@@ -93,6 +99,14 @@ structure HttpHeaderMatcher where
   variables : List (Str × Str)
   headers : List KeyValueData
 deriving Repr, Inhabited
+
+/-- `VariableMatchItem` (pkg/router/variable_rule.go): `value` / `regexPattern` are nil-able pointers -/
+structure VarItem where
+  name : Str
+  value : Option Str
+  regexPattern : Option RegexId
+  model : Str
+deriving DecidableEq, Repr, Inhabited
 
 /-- `(*regexp.Regexp).MatchString` on a possibly nil pattern pointer that the code has tested non-nil -/
 def rxMatch (rx : RxOracle) (p : Option RegexId) (s : Str) : Bool :=
